@@ -11,7 +11,7 @@ func init() {
 			"(G7) neither ExportToCsv nor the helpers write memory reachable from the journal. Not decided: text/template itself; CSV metacharacters in values (excluded by the property).",
 		Assumptions: []string{"text/template executes the parse tree as documented (range in slice order, trim markers as parsed)"},
 		Rules: []Rule{
-			{Name: "T", Doc: "template structure, header/cell agreement, formatter table, wiring, helper tables", MinInstances: 25, Run: runTemplates},
+			{Name: "T", Doc: "template structure, header/cell agreement, formatter table, wiring, helper tables", MinInstances: 17, Run: runTemplates},
 			{Name: "G7", Doc: "export does not modify the journal", MinInstances: 1, Run: func(c *Ctx) {
 				roots := c.anchors("journal:(*Journal).ExportToCsv")
 				roots = append(roots, c.funcMapClosures()...)
